@@ -69,6 +69,20 @@ PROPS = {
         "trivial_tags": [],
         "level_text": "wip", "level_note": "wip",
     },
+    "C13": {
+        "theorems": [],
+        "suites": [{"name": "dispatch", "quick": 2000, "thorough": 50000}],
+        "required_tags": ["dispatch.outcome:backend", "dispatch.outcome:unknown", "dispatch.outcome:reject", "dispatch:unmatched"],
+        "trivial_tags": [],
+        "level_text": "wip", "level_note": "wip",
+    },
+    "C18": {
+        "theorems": [],
+        "suites": [{"name": "dispatch", "quick": 1500, "thorough": 50000}, {"name": "negotiate", "quick": 1000, "thorough": 30000}],
+        "required_tags": ["dispatch.outcome:backend", "dispatch.outcome:unknown", "dispatch.outcome:reject", "negotiate.outcome:reject"],
+        "trivial_tags": [],
+        "level_text": "wip", "level_note": "wip",
+    },
 }
 
 NOT_APPLICABLE = {}
